@@ -478,3 +478,11 @@ def no_extra_master_secrets(ctx):
                       'a master secret is pushed onto the refreshed chain (line %d) although %s: the refreshed key receives secrets it '
                       'never held' % (c.ln, why), 'before the newest user secret is found, or equal to a user secret', c.where())
     ctx.floor(n, 2, 'pushes of master-chain elements')
+
+
+@rule('C05', 'instance-is-stateless')
+def instance_is_stateless(ctx):
+    """'pruned and deleted secrets leave refreshed keys' for every history of edits: the universe of rights handed to update_msk is recomputed from the access structure as it is now — nothing memoised inside the structure or the instance can outlive a deletion. Structurally: the scheme instance holds its random generator and nothing else, and no type of the crate has an
+    interior-mutable field — no cache, no memo, no static, no thread-local (C19.state-audit)."""
+    from . import c19
+    c19.state_audit(ctx)
